@@ -92,7 +92,10 @@ def run_property(pid: str, tier: str = "quick", root: str = REPO, overrides: Opt
     for name in spec["core"] + spec["aux"]:
         res = results[name]
         tag = "core" if name in spec["core"] else "aux "
-        say(f"  {tag} {name:16s} {res.status:9s} obligations={res.obligations} discharged={res.discharged}"
+        shown = res.status
+        if shown == VIOLATION and all(any(f is h for h, _ in known_hit) for f in res.findings):
+            shown = "KNOWN"  # every finding of this rule is a listed known finding: no alarm word in the table
+        say(f"  {tag} {name:16s} {shown:9s} obligations={res.obligations} discharged={res.discharged}"
             + (f"  -- {res.reason.splitlines()[0]}" if res.status == UNDECIDED else ""))
     for f, k in known_hit:
         say(f"KNOWN-FINDING: property={pid} {f.key} ({f.where}) -- {k.get('what', f.message)}")
